@@ -61,6 +61,12 @@ def strategy(tier):
                                'name': st.sampled_from(['a', 'b', 'z']),
                                'id': st.sampled_from([0, 1, 2]),
                                'args': args, 'ret': ret}),
+        # a (text or binary) event whose handler raises, then an ordinary
+        # event: the second one must be handled and acknowledged as usual
+        st.fixed_dictionaries({'op': st.just('fault_ev'), 'ns': nsi,
+                               'binary': st.booleans(),
+                               'id': st.one_of(st.none(), st.integers(0, 4)),
+                               'id2': st.integers(0, 4)}),
         st.fixed_dictionaries({'op': st.just('emit_cb'), 'ns': nsi,
                                'data': S.payload_st(max_leaves=3),
                                'send': st.booleans()}),
@@ -119,6 +125,8 @@ def _run(case, h):
     def result(args):
         for a in args:
             if isinstance(a, dict) and set(a) == {'__tag'}:
+                if rets[a['__tag']] == '__raise__':
+                    raise RuntimeError('application handler fault')
                 return rets[a['__tag']]
         return None
 
@@ -270,6 +278,39 @@ def _run(case, h):
                     raise Violation(kind, 'event id %r on %s ret %r: %r'
                                     % (op['id'], ns, r, pk))
             check_quiet(step, 'ev')
+        elif k == 'fault_ev':
+            if responsible(ns, 'a') is None:
+                continue
+            dirs.add('in')
+            nlog = len(log)
+            tag[0] += 1
+            rets[tag[0]] = '__raise__'
+            t1 = tag[0]
+            for f in wire.frames(wire.EVENT, ns, op['id'],
+                                 ['a', {'__tag': t1}] + (
+                                     [b'bin', {'k': b'x'}] if op['binary']
+                                     else ['txt'])):
+                h.deliver(f)
+            tag[0] += 1
+            rets[tag[0]] = 'after-fault'
+            for f in wire.frames(wire.EVENT, ns, op['id2'],
+                                 ['a', {'__tag': tag[0]}]):
+                h.deliver(f)
+            h.bg_errors[:] = [e for e in h.bg_errors if
+                              'application handler fault' not in str(e)]
+            h.swallowed[:] = []
+            tags = [a['__tag'] for e in log[nlog:] for a in e[2]
+                    if isinstance(a, dict) and set(a) == {'__tag'}]
+            if tags != [t1, tag[0]]:
+                raise Violation('event-lost-after-handler-fault',
+                                'handled %r expected %r' % (tags,
+                                                            [t1, tag[0]]))
+            pk = reader.read(h.take_msgs())
+            if [(p['nsp'], p['id'], p['data']) for p in pk] != [
+                    (ns, op['id2'], ['after-fault'])]:
+                raise Violation('ack-after-handler-fault', repr(pk))
+            labels['handler_fault'] = True
+            check_quiet(step, 'fault_ev')
         elif k == 'emit_cb':
             dirs.add('out')
             kctr[0] += 1
